@@ -80,8 +80,15 @@ def _worker_shape(args):
         c = C.REGISTRY[qualname]
         shape = c.shapes[shape_idx]
         tmo = budget['timeout_ms']
-        clauses, stats = C.check_shape(interp, c, shape, timeout_ms=tmo, wall_s=budget['wall_s'],
-                                       loop_bound=budget.get('loop_bound'))
+        if shape.bounded_only:
+            clauses = {'bounded': C.ClauseResult()}
+            clauses['bounded'].paths = 1
+            clauses['bounded'].unknown = 1
+            stats = dict(paths=0, infeasible=0, unsupported=['bounded-only shape: the body is outside the prover'], bounded=0, solver_calls=0,
+                         cover=1, side_fail=[], unknown_feasibility=0, errors=[], used_contracts=[], wall_s=0)
+        else:
+            clauses, stats = C.check_shape(interp, c, shape, timeout_ms=tmo, wall_s=budget['wall_s'],
+                                           loop_bound=budget.get('loop_bound'))
         res = {'kind': 'shape', 'qualname': qualname, 'shape': shape.name, 'shape_idx': shape_idx,
                'clauses': {}, 'stats': stats, 'replays': [], 'cross': None, 'contract_kind': c.kind, 'stable': shape.stable}
         undecided_shape = bool(stats['unsupported'] or stats['errors'] or stats['bounded'])
